@@ -23,7 +23,7 @@ H = "c08_serializer"
 TA = ["<p a=", "<svg xlink:href=", "<input disabled=", "x", " ", '"', "'", "=", "<", ">", "`", "&amp;", "&lt;", "é", "\n", "/", "&#0;x",
       "disabled", " b=", "&quot;", "&#39;"]
 TT = ["x", "<", ">", "&amp;", "&lt;", '"', "'", "-", "<!--", "-->", "<title>", "</title>", "<style>", "</style>", "<svg>", "</svg>",
-      "<script>", "</script>", "<![CDATA[", "]]>", "<noscript>", "</noscript>", "<plaintext>", "<p>", "é", "\n", "<!-", "<!DOCTYPE a PUBLIC 'b\"c' \"d'e\">", "</"]
+      "<script>", "</script>", "<![CDATA[", "]]>", "<noscript>", "</noscript>", "<plaintext>", "<p>", "é", "\n", "<!-", "<!DOCTYPE a PUBLIC 'b\"c' \"d'e\">", "</", "&lt;b&gt;"]
 tw.THEMES.setdefault("TA", TA)
 tw.THEMES.setdefault("TT", TT)
 
